@@ -768,6 +768,22 @@ pub fn t_constprop(variant: usize) -> Tm {
     b.fin(format!("constprop/{variant}"), "ConstProp")
 }
 
+/// Shape(Div(x, c)) with a single-element divisor of higher rank: the Div operator returns x's shape
+/// although ONNX broadcasting (and rten's shape inference) give the divisor's rank.
+pub fn t_div_rank() -> Tm {
+    let mut b = B::new();
+    let x = b.x("x", &[2, 3]);
+    let c = b.sc(3, 2.0);
+    let v = b.op("Div", &[&x, &c]);
+    let sh = b.op("Shape", &[&v]);
+    let i0 = b.ci(&[], &[0]);
+    let g = b.opa("Gather", &[&sh, &i0], vec![("axis", Attr::Int(0))]);
+    let cf = b.opa("Cast", &[&g], vec![("to", Attr::Int(dt::FLOAT as i64))]);
+    let y = b.op("Add", &[&v, &cf]);
+    b.out(&y, dt::FLOAT);
+    b.fin("divrank/x[2,3]/c[1,1,1]".into(), "ShapeArith")
+}
+
 /// Two graph outputs with the same (shape-inference) constant value.
 pub fn t_dup_const_outputs(variant: usize) -> Tm {
     let mut b = B::new();
@@ -795,6 +811,7 @@ pub fn all_templates(rng: &mut Rng, thorough: bool) -> Vec<Tm> {
     let mut v: Vec<Tm> = vec![];
     v.push(t_dup_const_outputs(0));
     v.push(t_dup_const_outputs(1));
+    v.push(t_div_rank());
     let f = dt::FLOAT;
     // Identity
     for op in 0..5 {
@@ -1134,6 +1151,11 @@ pub fn random_graph(rng: &mut Rng, k: usize) -> Tm {
                 };
                 let swap = rng.chance(1, 2);
                 let (l, lsh, rr, rsh) = if swap { (o, osh, a, ash) } else { (a, ash, o, osh) };
+                if ty == "Div" && rsh.iter().product::<usize>() == 1 && rsh.len() > lsh.len() {
+                    // the float Div *operator* drops the rank of a single-element divisor (operator defect
+                    // outside the optimizer, see template `divrank`): excluded from the random graphs
+                    continue;
+                }
                 match bshape(&lsh, &rsh) {
                     Some(s) => (b.op(ty, &[&l, &rr]), s, ty),
                     None => continue,
